@@ -191,6 +191,7 @@ func checkC02(t *testing.T, env *report.Env, rep *report.Report) {
 	}
 	liveAlpha := Alphabet([]string{"a"}, []string{"", "x", "y"}, []uint32{1, 2, 3}, false)
 	liveAlpha = append(liveAlpha, Op{Kind: "put", Name: "b", Value: "x"}, Op{Kind: "delete", Name: "b"})
+	longHistory(rep)
 	// the same with a read-everything step in the alphabet, so that reads happen between writes and not only
 	// at the end of a history (state that reads leave in memory meets later writes)
 	obsAlpha := []Op{{Kind: "put", Name: "a", Value: "x"}, {Kind: "put", Name: "a", Value: "y"}, {Kind: "activate", Name: "a", Ver: 2}, {Kind: "delver", Name: "a", Ver: 1}, {Kind: "delver", Name: "a", Ver: 2}, {Kind: "delete", Name: "a"}, {Kind: "observe"}}
@@ -209,7 +210,7 @@ func checkC02(t *testing.T, env *report.Env, rep *report.Report) {
 // are histories of their own).
 func liveTree(rep *report.Report, env *report.Env, name string, alpha []Op, depth int) {
 	sec := rep.Add(&report.Section{Name: name, Engine: "seqx", Exhaustive: true, Extra: map[string]int64{},
-		Rule:  "full tree of operation histories (never merged) on one live database instance per history, no restarts; the last step's result class, returned version, canonical state and full observable state are compared with the model; non-trivial = histories whose last operation changes the state",
+		Rule:  "full tree of operation histories (never merged) on one live database instance per history, no restarts; the last step's result class, returned version, canonical state and full observable state are compared with the model, and the file the instance wrote is opened afresh and compared too; non-trivial = histories whose last operation changes the state",
 		Bound: fmt.Sprintf("depth %d, %d operations", depth, len(alpha))})
 	fs := &failSet{}
 	var mu sync.Mutex
@@ -272,6 +273,12 @@ func liveTree(rep *report.Report, env *report.Env, name string, alpha []Op, dept
 							if got, want := hx.Observe(d, ObsNames, 5), hx.ObserveModel(m, ObsNames, 5); got != want {
 								fs.add("live-observable-state", fmt.Sprintf("live history %v: observable state %s, model %s", hist, got, want), hist)
 							}
+						}
+						// what the live instance wrote: the file, opened afresh, holds the same state
+						if d2, err := db.Open(filepath.Join(dir, "db"), KEK, hx.Discard()); err != nil {
+							fs.add("live-file-does-not-open", fmt.Sprintf("live history %v: the file it wrote does not open: %v", hist, err), hist)
+						} else if k := hx.DumpKey(d2); k != m.Key() {
+							fs.add("live-file-differs", fmt.Sprintf("live history %v: the file it wrote opens as %s, the acknowledged operations imply %s", hist, k, m.Key()), hist)
 						}
 					}
 				}
@@ -535,6 +542,13 @@ func checkC03(t *testing.T, env *report.Env, rep *report.Report) {
 	sec.Extra["ops_with_unwritable_audit_log_then_reopen"] = failedOps
 	fs.flush(rep, sec.Name, 3)
 
+	// histories on one live instance (state kept in memory between saves), the file reopened at the end
+	c03Alpha := []Op{{Kind: "put", Name: "a", Value: "x"}, {Kind: "put", Name: "a", Value: "y"}, {Kind: "delete", Name: "a"}, {Kind: "delver", Name: "a", Ver: 2}, {Kind: "activate", Name: "a", Ver: 2}, {Kind: "put", Name: "b", Value: "x"}, {Kind: "delete", Name: "b"}}
+	if env.Thorough() {
+		liveTree(rep, env, "live-histories-then-reopen-depth6", c03Alpha, 6)
+	} else {
+		liveTree(rep, env, "live-histories-then-reopen-depth5", c03Alpha, 5)
+	}
 	// golden files written by the pinned commit
 	g := rep.Add(&report.Section{Name: "golden-files", Engine: "enum", Exhaustive: true, Rule: "database files written once by the pinned commit (golden/), each opened with its key and compared with the recorded dump"})
 	root := os.Getenv("VERIF_ROOT")
@@ -613,4 +627,56 @@ func TestMakeGolden(t *testing.T) {
 		os.WriteFile(filepath.Join(out, name+".keyset.json"), buf.Bytes(), 0o644)
 		os.WriteFile(filepath.Join(out, name+".dump.json"), []byte(hx.DumpKey(d)+"\n"), 0o644)
 	}
+}
+
+// longHistory: one name through a long life - 130 puts of fresh values with an activation every tenth
+// step and a bystander name - compared with the model after every step (a history much longer than the
+// trees reach; one history, not a search).
+func longHistory(rep *report.Report) {
+	sec := rep.Add(&report.Section{Name: "one-long-history", Engine: "seqx", Exhaustive: true, Extra: map[string]int64{},
+		Rule: "a single history of 130 puts of fresh values on one name (every tenth step activates the newest version, every 25th deletes the oldest inactive one) next to a bystander name, on one live instance: result, returned version and full observable state (all versions ever assigned) against the model after every step; non-trivial = all"})
+	dir := hx.Scratch("long-")
+	defer os.RemoveAll(dir)
+	d, _, err := OpenFile(dir, nil)
+	if err != nil {
+		panic(err)
+	}
+	m := model.NewKV()
+	var hist []Op
+	step := func(o Op) bool {
+		hist = append(hist, o)
+		res := Apply(d, hx.Super(), o)
+		before := m.Clone()
+		wantV, acc := ApplyModel(m, o)
+		if res.Class != model.OK {
+			m = before
+		}
+		sec.Evaluations++
+		sec.Nontrivial++
+		maxV := uint32(len(hist) + 2)
+		switch {
+		case !model.In(res.Class, acc):
+			rep.Violate(sec.Name, "long-history/result", fmt.Sprintf("step %d %v of the long history returned %v (%s), model accepts %v", len(hist), o, res.Class, res.Err, acc), nil)
+		case res.Class == model.OK && o.Kind == "put" && res.Ver != wantV:
+			rep.Violate(sec.Name, "long-history/version", fmt.Sprintf("step %d %v returned version %d, model says %d", len(hist), o, res.Ver, wantV), nil)
+		case hx.Observe(d, []string{"a", "b"}, maxV) != hx.ObserveModel(m, []string{"a", "b"}, maxV):
+			rep.Violate(sec.Name, "long-history/state", fmt.Sprintf("after step %d %v of the long history the observable state differs from the model: got %s want %s", len(hist), o, report.Clip(hx.Observe(d, []string{"a", "b"}, maxV), 400), report.Clip(hx.ObserveModel(m, []string{"a", "b"}, maxV), 400)), nil)
+		default:
+			return true
+		}
+		return false
+	}
+	step(Op{Kind: "put", Name: "b", Value: "bystander"})
+	for i := 1; i <= 130; i++ {
+		if !step(Op{Kind: "put", Name: "a", Value: fmt.Sprintf("value-%d", i)}) {
+			break
+		}
+		if i%10 == 0 && !step(Op{Kind: "activate", Name: "a", Ver: uint32(i)}) {
+			break
+		}
+		if i%25 == 0 && !step(Op{Kind: "delver", Name: "a", Ver: uint32(i/25 + 1)}) {
+			break
+		}
+	}
+	sec.States, sec.Transitions = sec.Evaluations, sec.Evaluations
 }
